@@ -7,6 +7,7 @@
 //	store <out.jsonl> replay <in.jsonl>          re-run given sequences against the current tree
 //	store crash-setup <dir> <old-text-id>        prepare <dir>/dags/victim.yaml (+ a neighbour) for the save-crash runs
 //	store crash-helper <dir> <new-text-id>       ONE UpdateSpec("victim") on the locked OS thread (run under strace)
+//	store crash-list <dir>                       what the real DAGStore.List shows in <dir>/dags (JSON on stdout)
 //	store texts <out.jsonl>                      only the text pool with the loader verdicts
 package main
 
@@ -49,8 +50,8 @@ type Text struct {
 	Kind  string `json:"kind"`
 	Len   int    `json:"len"`
 	Sha   string `json:"sha"`
-	Valid bool   `json:"valid"` // dag.LoadYAML accepts (the validation of UpdateSpec)
-	Load  bool   `json:"load"`  // dag.LoadWithoutEval of a file with this text succeeds
+	Valid bool   `json:"valid"` // dag.LoadYAML accepts (what UpdateSpec itself asks - NOT used as the oracle)
+	Load  bool   `json:"load"`  // INDEPENDENT validity oracle: dag.LoadWithoutEval of a file with these bytes succeeds
 	Meta  bool   `json:"meta"`  // dag.LoadMetadata of a file with this text succeeds
 	Graph bool   `json:"graph"` // scheduler.NewExecutionGraph accepts the loaded steps
 	data  []byte
@@ -80,6 +81,10 @@ func texts0() []*Text {
 		{ID: "T6", Kind: "huge", data: bigText()},
 		{ID: "T7", Kind: "cyclic", data: []byte("steps:\n  - name: p\n    command: echo p\n    depends:\n      - q\n  - name: q\n    command: echo q\n    depends:\n      - p\n")},
 		{ID: "T8", Kind: "invalid-dag", data: []byte("steps: 17\n")},
+		// headline fine, STEPS invalid (only a loader that builds the steps notices)
+		{ID: "T9", Kind: "invalid-step", data: []byte("description: fine\nsteps:\n  - name: s1\n")},
+		{ID: "T10", Kind: "invalid-step", data: []byte("description: fine\nsteps:\n  - name: s1\n    command: echo x\n    executor: 17\n")},
+		{ID: "T11", Kind: "invalid-step", data: []byte("description: fine\nsteps:\n  - name: s1\n    call:\n      function: nope\n      args:\n        a: 1\n")},
 	}
 }
 
@@ -164,7 +169,10 @@ type Op struct {
 	Err  string   `json:"err,omitempty"`
 	Out  []string `json:"out,omitempty"` // list: names; get: text id
 	Errs int      `json:"errs,omitempty"`
-	Dump *Dump    `json:"dump,omitempty"`
+	// save: after an accepted save the stored DAG must still load through DAGStore.GetDetails (independent of UpdateSpec's own validation)
+	Loads   *bool  `json:"loads,omitempty"`
+	LoadErr string `json:"load_err,omitempty"`
+	Dump    *Dump  `json:"dump,omitempty"`
 }
 
 type Case struct {
@@ -371,6 +379,14 @@ func (e *env) apply(op *Op) {
 		_, err = e.ds.DAGStore().Create(op.Name, e.text(op.Text))
 	case "save":
 		err = e.cli.UpdateDAG(op.Name, string(e.text(op.Text)))
+		if err == nil {
+			_, lerr := e.ds.DAGStore().GetDetails(op.Name)
+			ok := lerr == nil
+			op.Loads = &ok
+			if lerr != nil {
+				op.LoadErr = lerr.Error()
+			}
+		}
 	case "rename":
 		err = e.cli.Rename(op.Name, op.New)
 	case "srename":
@@ -461,7 +477,7 @@ func (g *gen) name(small bool) string {
 
 func (g *gen) textID() string {
 	// weights: valid ones more often; the 1 MiB text rarely (it is heavy)
-	k := g.r.Below(24)
+	k := g.r.Below(27)
 	switch {
 	case k < 5:
 		return "T1"
@@ -479,8 +495,10 @@ func (g *gen) textID() string {
 		return "T6"
 	case k < 22:
 		return "T7"
+	case k < 23:
+		return "T8"
 	}
-	return "T8"
+	return []string{"T9", "T10", "T11"}[g.r.Below(3)]
 }
 
 func (g *gen) freshStamp() int64 {
@@ -554,7 +572,8 @@ func generated(tier string, rng *vh.Rng) []*Case {
 			g0.stamp = map[int64]bool{}
 			ops := []Op{{Op: "create", Name: n}, g0.runOp(n), {Op: "create", Name: m}, g0.runOp(m), g0.runOp(n),
 				{Op: "create", Name: n}, {Op: "save", Name: n, Text: "T1"}, {Op: "save", Name: n, Text: "T3"},
-				{Op: "save", Name: n, Text: "T4"}, {Op: "save", Name: n, Text: "T5"}, {Op: "save", Name: "zz", Text: "T1"},
+				{Op: "save", Name: n, Text: "T4"}, {Op: "save", Name: n, Text: "T9"}, {Op: "save", Name: n, Text: "T10"},
+				{Op: "save", Name: n, Text: "T11"}, {Op: "get", Name: n}, {Op: "save", Name: n, Text: "T5"}, {Op: "save", Name: "zz", Text: "T1"},
 				{Op: "suspend", Name: n, On: true}, {Op: "suspend", Name: m, On: true},
 				{Op: "rename", Name: n, New: "fresh"}, {Op: "list"}, {Op: "rename", Name: "fresh", New: m}, {Op: "list"},
 				{Op: "get", Name: m}, {Op: "delete", Name: m}, {Op: "delete", Name: m}, {Op: "list"}}
@@ -650,6 +669,26 @@ func main() {
 	log.SetOutput(io.Discard) // jsondb logs parse failures through the standard logger
 	if len(os.Args) >= 4 && os.Args[1] == "crash-setup" {
 		crashSetup(os.Args[2], os.Args[3])
+		return
+	}
+	if len(os.Args) >= 3 && os.Args[1] == "crash-list" {
+		// what the real DAGStore lists in <dir>/dags (a stray temporary file of a killed save must not show up)
+		ds := dsclient.NewDataStores(filepath.Join(os.Args[2], "dags"), filepath.Join(os.Args[2], "data"),
+			filepath.Join(os.Args[2], "suspend"), dsclient.DataStoreOptions{})
+		ls, errs, err := ds.DAGStore().List()
+		out := []string{}
+		for _, d := range ls {
+			out = append(out, filepath.Base(d.Location))
+		}
+		sort.Strings(out)
+		all := []string{}
+		if fis, e := os.ReadDir(filepath.Join(os.Args[2], "dags")); e == nil {
+			for _, fi := range fis {
+				all = append(all, fi.Name())
+			}
+		}
+		b, _ := json.Marshal(map[string]any{"listed": out, "errs": len(errs), "err": fmt.Sprint(err), "files": all})
+		fmt.Println(string(b))
 		return
 	}
 	if len(os.Args) >= 4 && os.Args[1] == "crash-helper" {
